@@ -26,7 +26,7 @@ chk("C03", "model_checking", "exhaustive append-a-byte tree and truncation grids
 
 chk("C05", "model_checking", "exhaustive enumeration of the counter arithmetic + explicit-state BFS of the real device against a reference acceptor",
     "(a) the real next_fcnt_down (hook wrapper) is evaluated for all 65536 wire values x every last value in windows around every class of boundary and a stride over the 32-bit range, against the u64 specification rule. (b) BFS over histories of whole uplink transactions on the real nb device; each delivers one frame of an alphabet of fresh / replayed / reordered / far-future / forged / wrong-epoch / oversized frames in RX1 or RX2, from sessions starting at epoch boundaries (uplink counter far from, next to and at exhaustion); a reference acceptor (independent codec + spec rule) decides, and response, remembered counter, delivered plaintext, no-double-accept and monotonicity are checked at every transition.",
-    "Trusted: refcodec/refcrypto, spec_next_fcnt in dev.rs. Window size limit taken from the RfConfig the device bound to the window (C10 checks that). (c) the same alphabet on the async device in Class C (idle rxc_listen, receptions while waiting for RX1/RX2, per-window size limits with a fast uplink rate). Depth-bounded (4 transactions; 6 in the thorough tier).",
+    "Trusted: refcodec/refcrypto, spec_next_fcnt in dev.rs. Window size limit taken from the RfConfig the device bound to the window (C10 checks that). (d) per region and uplink rate, frames at and one byte above every size limit under every RX1 data-rate offset the region admits, the limit taken independently from the window's spreading factor and bandwidth. (c) the same alphabet on the async device in Class C (idle rxc_listen, receptions while waiting for RX1/RX2, per-window size limits with a fast uplink rate). Depth-bounded (4 transactions; 6 in the thorough tier).",
     "DESIGN.md §3 C05")
 chk("C06", "fault_enumeration", "explicit-state BFS with a radio fault at every radio call position (deviation-bounded), reference codec decodes every transmitted frame",
     "BFS over histories of uplink transactions and Class C listening on both real front-ends; every transaction is explored with every receive outcome and with a deviation at each radio call position - one failing call, or an outage spanning 2-3 consecutive calls / the rest of the public call - (bound 1 quick, 2 thorough), downlinks incl. accepted LinkADRReq with NbTrans 2 / 15, from sessions with counters at 0, 16-bit and 32-bit boundaries. A monitor decodes every frame handed to the radio, recovers its 32-bit counter by MIC verification, and requires strict growth (identical retransmission tolerated), payload encryption under the same counter, and expiry instead of wrap.",
@@ -35,7 +35,7 @@ chk("C06", "fault_enumeration", "explicit-state BFS with a radio fault at every 
 
 chk("C07", "model_checking", "self-composition (twin devices) explored by explicit-state BFS; rejection decided by the reference acceptor",
     "Pair states of two real devices driven with identical events and RNG; twin B additionally receives one candidate frame (random bytes, bit flips of the authentic frame, other session, replays, stale / too-far counters, wrong-epoch MIC, oversized, JoinAccepts under wrong key / wrong length, JoinAccept in a data session, data frame in a join window) at every receive opportunity of every transaction, joins included (RX1, RX2; Class C: before RX1, before RX2, idle). Only frames the reference rejects count. The twins are compared in lock-step (responses, radio and timer operations, delivered downlinks, snapshots) for the rest of the history; oversized frames may end the receive procedure.",
-    "Trusted: refcodec/refcrypto and the freshness rule; one injection per history; depth 3 (quick) / 4 (thorough) transactions; nb and async (+Class C) front-ends, ABP and OTAA (also OTAA with Class C enabled).",
+    "Trusted: refcodec/refcrypto and the freshness rule; one injection per history; depth 3 (quick) / 4 (thorough) transactions; nb and async (+Class C) front-ends, ABP and OTAA (also OTAA with Class C enabled); IN865 at its highest rate with the largest RX1 offset.",
     "DESIGN.md §3 C07")
 
 chk("C04", "model_checking", "exhaustive one-command-deep value sweep from base states + explicit-state BFS over histories, hang detection via owned fair RNG with draw budget",
@@ -44,21 +44,21 @@ chk("C04", "model_checking", "exhaustive one-command-deep value sweep from base 
     "DESIGN.md §3 C04")
 
 chk("C10", "model_checking", "explicit-state BFS over command / data-rate / (re-)join / uplink histories with a reference model of the parameters in force, plus an exhaustive configuration sweep; independent regional tables as oracle",
-    "(H) BFS on one real device per region x front-end (nb, async, async+Class C) x {ABP, OTAA}: uplinks (first RNG draw from a set), uplinks answered in RX1 or RX2 by RXParamSetupReq (valid and invalid-in-one-field variants), RXTimingSetupReq, DlChannelReq, NewChannelReq create / redefine / delete, LinkADRReq, set_datarate (also between TX and the windows), unanswered join attempts and (re-)joins with other DLSettings / RxDelay; every transaction that transmits is judged against a reference model of the parameters in force (updated only by unambiguously valid requests) and the RP002 tables: RX1 frequency / data rate, RX2 frequency / data rate, Class C parameters between and after the windows, window size limits and window times. (P) Per region and front-end eight full sub-products of configurations installed on a fresh device through authentic downlinks: every uplink data rate x RX1DROffset 0..7 x first RNG draw (all 64 for 72-channel plans), RXTimingSetupReq 0..15 x board timing x TX end time (incl. the 2^31 / 2^32 ms clock boundaries), all 16 RX2 data-rate values x frequencies, DlChannelReq mappings, joins under join-bias settings, a data-rate change between TX and the windows.",
+    "(H) BFS on one real device per region x front-end (nb, async, async+Class C) x {ABP, OTAA}: uplinks (first RNG draw from a set), uplinks answered in RX1 or RX2 by RXParamSetupReq (valid and invalid-in-one-field variants), RXTimingSetupReq, DlChannelReq, NewChannelReq create / redefine / delete, LinkADRReq, set_datarate (also between TX and the windows), unanswered join attempts and (re-)joins with other DLSettings / RxDelay, (async) uplinks during which a radio call fails or a continuous reception reports an error; every transaction that transmits is judged against a reference model of the parameters in force (updated only by unambiguously valid requests) and the RP002 tables: RX1 frequency / data rate, RX2 frequency / data rate, Class C parameters between and after the windows, window size limits and window times. (P) Per region and front-end eight full sub-products of configurations installed on a fresh device through authentic downlinks: every uplink data rate x RX1DROffset 0..7 x first RNG draw (all 64 for 72-channel plans), RXTimingSetupReq 0..15 x board timing x TX end time (incl. the 2^31 / 2^32 ms clock boundaries), all 16 RX2 data-rate values x frequencies, DlChannelReq mappings, joins under join-bias settings, a data-rate change between TX and the windows.",
     "Trusted: refregion.rs (set-valued where RP002 revisions differ; FSK/LR-FHSS entries only require some region-defined LoRa rate). nb offset sign convention accepted either way. What a (re-)join does to remapped downlink frequencies of default channels and to extra channels is not stated: both are admitted. Join windows opened from a session with negotiated parameters are judged on RX1 frequency, timing and 'region-defined rate' only. History depth 3 (quick) / 4 (thorough) transactions.",
     "DESIGN.md §3 C10")
 
 chk("C09", "model_checking", "explicit-state BFS over channel-plan histories with every RNG outcome of each transmission enumerated; TxConfig judged against snapshot and regional tables",
-    "BFS on the real device per region x board (radio max power, antenna gain) x activation / join-bias / ADR-back-off configuration. In every reached state the next uplink or join attempt is expanded once per value of the first RNG draw (the harness owns the RNG, so every possible channel choice is checked, not sampled); other events reshape the plan (LinkADRReq masks/DR/TX power, NewChannelReq create/delete, DlChannelReq, CFLists incl. minimal and out-of-band, set_datarate). Each TxConfig must be in band, on a defined and enabled channel (join: a join channel at the mandated rate), at a region-defined rate whose bandwidth matches the channel, within the power bound; selection must terminate under the fair stream.",
+    "BFS on the real device per region x board (radio max power, antenna gain) x activation / join-bias / ADR-back-off configuration. In every reached state the next uplink or join attempt is expanded once per value of the first RNG draw (the harness owns the RNG, so every possible channel choice is checked, not sampled); other events reshape the plan (join attempts whose transmit call is refused, re-joins with and without CFLists, LinkADRReq masks/DR/TX power, NewChannelReq create/delete, DlChannelReq, CFLists incl. minimal and out-of-band, set_datarate). Each TxConfig must be in band, on a defined and enabled channel (join: a join channel at the mandated rate), at a region-defined rate whose bandwidth matches the channel, within the power bound; selection must terminate under the fair stream.",
     "Trusted: refregion.rs (most permissive EIRP of set-valued entries). Both front-ends are explored (nb; async in Class A for ABP and with Class C enabled for OTAA).",
     "DESIGN.md §3 C09")
 
 chk("C11", "model_checking", "exhaustive JoinAccept value sweep from several pre-histories + explicit-state BFS over join histories, reference codec/region as oracle",
-    "(A) every JoinAccept content (all 256 DLSettings x RxDelay x CFList variants incl. RFU types, zero / out-of-band frequencies, masks; boundary JoinNonce/NetID/DevAddr/DevNonce) is delivered in RX1 or RX2 to a fresh device, after a failed attempt and as a re-join from a joined state, followed by the first uplink. (B) BFS over histories of join attempts (none, valid RX1/RX2, bad MIC, wrong key, wrong length, replayed accept, data frame, bad-then-valid) interleaved with uplinks on nb, async and async+Class C. Oracle: JoinRequest bytes, joined iff the reference verifies the MIC, session keys = reference derivation with the DevNonce just sent, address, counters restarted, RxDelay/DLSettings/CFList applied iff valid per the regional tables, configuration untouched otherwise, first uplink verifies under the derived keys.",
+    "(A) every JoinAccept content (all 256 DLSettings x RxDelay x CFList variants incl. RFU types, zero / out-of-band frequencies, masks; boundary JoinNonce/NetID/DevAddr/DevNonce) is delivered in RX1 or RX2 to a fresh device, after a failed attempt and as a re-join from a joined state, followed by the first uplink. (B) BFS over histories of join attempts (none, valid RX1/RX2, bad MIC, wrong key, wrong length, replayed accept, data frame, bad-then-valid) interleaved with uplinks on nb, async and async+Class C. Pre-histories include a DlChannelReq on a CFList channel and a change of the AppKey for the same identifiers; with Class C the listening after JoinSuccess must use the new session's RX2 parameters. Oracle: JoinRequest bytes, joined iff the reference verifies the MIC, session keys = reference derivation with the DevNonce just sent, address, counters restarted, RxDelay/DLSettings/CFList applied iff valid per the regional tables, configuration untouched otherwise, first uplink verifies under the derived keys.",
     "Trusted: refcodec/refcrypto/refregion. RX2 rates the region defines but the stack lacks may be ignored; out-of-band CFList entries may be ignored or remove the channel.",
     "DESIGN.md §3 C11")
 chk("C12", "model_checking", "complete reachable-state graph by BFS with O(1) state restoration through Session serde, executable reference model in lock-step",
-    "The complete graph of (data rate, ADR flag, ADR counter, owed ACK, last-uplink-confirmed, downlink-seen) reachable from a fresh session is explored per region and front-end; each state is restored on a fresh real device via Session (de)serialisation and public setters and one event is applied (uplink with each receive outcome incl. Class C downlinks, set_adr, set_datarate). The counter dimension is followed past every back-off step (over 300 uplinks). A reference model predicts DevAddr, MType, ACK, ADR and ADRACKReq bits and the data rate of every uplink; candidates are carried where the statement admits several behaviours.",
+    "The complete graph of (data rate, ADR flag, ADR counter, owed ACK, last-uplink-confirmed, downlink-seen) reachable from a fresh session is explored per region and front-end; each state is restored on a fresh real device via Session (de)serialisation and public setters and one event is applied (uplink with each receive outcome incl. Class C downlinks, set_adr, set_datarate). The counter dimension is followed past every back-off step (over 300 uplinks). Plus straight-line histories of 400 unanswered uplinks (plain, after a TX-power command, with only the 500 kHz channels enabled) and all three-downlink patterns on a device with a one-entry downlink queue. A reference model predicts DevAddr, MType, ACK, ADR and ADRACKReq bits and the data rate of every uplink; candidates are carried where the statement admits several behaviours.",
     "Trusted: refcodec for header decoding, refregion for the set of defined rates, the Session serde restore (C20 checks it). Frame counters are normalised in the state key (argued irrelevant to this property).",
     "DESIGN.md §3 C12")
 
@@ -98,7 +98,7 @@ chk("C14", "exploration", "explicit-state BFS over API call sequences of the rea
     "DESIGN.md §3 C14")
 
 chk("C17", "exploration", "exhaustive input sweeps through the real drivers, SPI writes decoded with datasheet formulas",
-    "Through the real RadioKind implementations over a recording SPI: (a) set_channel for every 100 Hz LoRaWAN channel frequency plus a 1 kHz stride over 137-1020 MHz (thorough: every 1 Hz, 8.8e8 values per chip family), PLL word decoded and compared in exact integer arithmetic; (b) every power request -128..127 and i32 extremes x 8 chip/PA variants x 3 bands, PA registers decoded with the datasheet tables (clamped request, never above it, reserved bits intact), and pairs of requests in a row on one register-file chip model; (c) every symbol timeout 0..65535; (d) every (SF,BW) x margin 0..1000 ms through the LoRaWAN adapter against 12.25 symbols + margin in exact rational arithmetic; (e) every raw packet-status value of both chip families against the datasheet conversions.",
+    "Through the real RadioKind implementations over a recording SPI: (a) set_channel for every 100 Hz LoRaWAN channel frequency plus a 1 kHz stride over 137-1020 MHz (thorough: every 1 Hz, 8.8e8 values per chip family), PLL word decoded and compared in exact integer arithmetic; (b) every power request -128..127 and i32 extremes x 8 chip/PA variants x 3 bands, PA registers decoded with the datasheet tables (clamped request, never above it, reserved bits intact), pairs of requests in a row on one driver instance and register-file chip model, and a request retried after a fault at each of its environment calls (the chip then holds what a fresh driver programs); every sequence of four front-end calls (prepare / rx_switch_channel / listen on two frequencies, start_rx, sleep, init, tx) leaves the chip tuned to the frequency named last; (c) every symbol timeout 0..65535; (d) every (SF,BW) x margin 0..1000 ms through the LoRaWAN adapter against 12.25 symbols + margin in exact rational arithmetic; (e) every raw packet-status value of both chip families against the datasheet conversions.",
     "Trusted: the datasheet decode formulas transcribed in c17.rs; ST's characterisation admitted for the STM32WL 14 dBm row; for SX127x negative-SNR RSSI both the datasheet and the reference-driver formula are admitted.",
     "DESIGN.md §3 C17")
 
